@@ -1,4 +1,6 @@
 import Core.Eqv
+import Props.C01
+import Core.Linked
 import Drv.Judge
 import Std.Data.String.ToNat
 set_option linter.unusedSectionVars false
@@ -12,8 +14,13 @@ The direct monitors of C03–C05 recompute their expectations from the raw histo
 says that these tables are the reference's tables; it holds initially, every call within the limits preserves it
 (`histRel_step`), and under it the direct expectations are the reference's answers (`direct_C03_is_reference`,
 `nextId_passes`): on a valid history the direct monitors cannot reject what the reference predicts. (Not covered: the
-text layer — printing and parsing of observation lines —, the C01 component search, and the monitors of the other
-operations.) -/
+text layer — printing and parsing of observation lines — and the monitors of the other operations.)
+
+The direct C01 monitor searches the component of the vertex read in its own list of bind pairs (`Drv.component`,
+a saturation loop of `|pairs| + 1` rounds). `component_complete`: the search is complete (each added element puts one
+more pair with both ends inside, so one of the rounds adds nothing, and then every pair is saturated).
+`direct_C01_accepts`: with `Props.C01.safety`, none of the three rejections of that monitor can fire on a reachable
+step. -/
 namespace Props.Driver
 open Sodg Drv
 
@@ -274,6 +281,280 @@ theorem direct_C03_is_reference (c : Nat) (hs : Hist) (r : R) (h : HistRel hs r)
   · simp only [R.step]; rw [h.edges v hv]
   · simp only [R.step]; rw [h.edges v hv]
   · simp only [R.step]; rw [h.puts v hv]
+
+
+/-- one pair of the component search -/
+def cstep1 (s : List Nat) (p : Nat × Nat) : List Nat :=
+  if p.1 ∈ s ∧ p.2 ∉ s then p.2 :: s else if p.2 ∈ s ∧ p.1 ∉ s then p.1 :: s else s
+
+def cround (P : List (Nat × Nat)) (s : List Nat) : List Nat := P.foldl cstep1 s
+
+def citer (P : List (Nat × Nat)) : Nat → List Nat → List Nat
+  | 0, s => s
+  | n + 1, s => citer P n (cround P s)
+
+theorem foldl_range_const {α} (g : α → α) : ∀ (n : Nat) (s : α), (List.range n).foldl (fun s _ => g s) s = Nat.rec (motive := fun _ => α → α) id (fun _ ih s => ih (g s)) n s := by
+  intro n
+  induction n with
+  | zero => intro s; rfl
+  | succ k ih =>
+    intro s
+    rw [List.range_succ_eq_map, List.foldl_cons, List.foldl_map]
+    exact ih (g s)
+
+theorem component_eq (P : List (Nat × Nat)) (v : Nat) : component P v = citer P (P.length + 1) [v] := by
+  unfold component
+  rw [foldl_range_const]
+  generalize P.length + 1 = n
+  generalize ([v] : List Nat) = s
+  induction n generalizing s with
+  | zero => rfl
+  | succ k ih => exact ih _
+
+def Sat (s : List Nat) (p : Nat × Nat) : Prop := p.1 ∈ s ↔ p.2 ∈ s
+
+theorem cstep1_cases (s : List Nat) (p : Nat × Nat) :
+    (cstep1 s p = s ∧ Sat s p) ∨ (∃ x, cstep1 s p = x :: s ∧ x ∉ s ∧ p.1 ∈ cstep1 s p ∧ p.2 ∈ cstep1 s p ∧ ¬ (p.1 ∈ s ∧ p.2 ∈ s)) := by
+  unfold cstep1
+  by_cases h1 : p.1 ∈ s ∧ p.2 ∉ s
+  · rw [if_pos h1]
+    exact Or.inr ⟨p.2, rfl, h1.2, List.mem_cons_of_mem _ h1.1, List.mem_cons_self, fun h => h1.2 h.2⟩
+  · rw [if_neg h1]
+    by_cases h2 : p.2 ∈ s ∧ p.1 ∉ s
+    · rw [if_pos h2]
+      exact Or.inr ⟨p.1, rfl, h2.2, List.mem_cons_self, List.mem_cons_of_mem _ h2.1, fun h => h2.2 h.1⟩
+    · rw [if_neg h2]
+      refine Or.inl ⟨rfl, ?_⟩
+      unfold Sat
+      constructor
+      · intro a; exact Classical.byContradiction (fun b => h1 ⟨a, b⟩)
+      · intro a; exact Classical.byContradiction (fun b => h2 ⟨a, b⟩)
+
+theorem cstep1_mono (s : List Nat) (p : Nat × Nat) (x : Nat) (h : x ∈ s) : x ∈ cstep1 s p := by
+  rcases cstep1_cases s p with ⟨e, _⟩ | ⟨y, e, _⟩ <;> rw [e]
+  · exact h
+  · exact List.mem_cons_of_mem _ h
+
+theorem cround_mono (Q : List (Nat × Nat)) : ∀ (s : List Nat) (x : Nat), x ∈ s → x ∈ Q.foldl cstep1 s := by
+  induction Q with
+  | nil => intro s x h; exact h
+  | cons p rest ih => intro s x h; exact ih _ x (cstep1_mono s p x h)
+
+/-- a round either changes nothing — and then every pair it went through is saturated — or makes the list longer -/
+theorem cround_cases (Q : List (Nat × Nat)) : ∀ (s : List Nat),
+    (Q.foldl cstep1 s = s ∧ ∀ p ∈ Q, Sat s p) ∨ s.length < (Q.foldl cstep1 s).length := by
+  induction Q with
+  | nil => intro s; exact Or.inl ⟨rfl, by simp⟩
+  | cons p rest ih =>
+    intro s
+    simp only [List.foldl_cons]
+    have hlen : ∀ (t : List Nat), t.length ≤ (rest.foldl cstep1 t).length := by
+      intro t
+      rcases ih t with ⟨e, _⟩ | h
+      · rw [e]; exact Nat.le_refl _
+      · exact Nat.le_of_lt h
+    rcases cstep1_cases s p with ⟨e, hs⟩ | ⟨x, e, _⟩
+    · rw [e]
+      rcases ih s with ⟨e2, h2⟩ | h
+      · refine Or.inl ⟨e2, ?_⟩
+        intro q hq
+        simp only [List.mem_cons] at hq
+        rcases hq with rfl | hq
+        · exact hs
+        · exact h2 q hq
+      · exact Or.inr h
+    · refine Or.inr ?_
+      have := hlen (cstep1 s p)
+      rw [e] at this ⊢
+      simp only [List.length_cons] at this
+      omega
+
+/-- pairs with both ends in the list -/
+def bothIn (P : List (Nat × Nat)) (s : List Nat) : Nat := (P.filter (fun p => decide (p.1 ∈ s ∧ p.2 ∈ s))).length
+
+theorem filter_length_mono {α} (p q : α → Bool) (h : ∀ x, p x = true → q x = true) :
+    ∀ (l : List α), (l.filter p).length ≤ (l.filter q).length := by
+  intro l
+  induction l with
+  | nil => simp
+  | cons x xs ih =>
+    simp only [List.filter_cons]
+    by_cases hp : p x = true
+    · simp only [hp, h x hp, if_true, List.length_cons]; omega
+    · simp only [hp, Bool.false_eq_true, if_false]
+      split
+      · simp only [List.length_cons]; omega
+      · exact ih
+
+theorem filter_length_strict {α} (p q : α → Bool) (h : ∀ x, p x = true → q x = true) (a : α) :
+    ∀ (l : List α), a ∈ l → p a = false → q a = true → (l.filter p).length + 1 ≤ (l.filter q).length := by
+  intro l
+  induction l with
+  | nil => intro h; cases h
+  | cons x xs ih =>
+    intro ha hpa hqa
+    simp only [List.mem_cons] at ha
+    simp only [List.filter_cons]
+    rcases ha with rfl | ha
+    · simp only [hpa, Bool.false_eq_true, if_false, hqa, if_true, List.length_cons]
+      have := filter_length_mono p q h xs
+      omega
+    · have := ih ha hpa hqa
+      by_cases hp : p x = true
+      · simp only [hp, h x hp, if_true, List.length_cons]; omega
+      · simp only [hp, Bool.false_eq_true, if_false]
+        split
+        · simp only [List.length_cons]; omega
+        · exact this
+
+theorem bothIn_le (P : List (Nat × Nat)) (s : List Nat) : bothIn P s ≤ P.length := List.length_filter_le _ _
+
+/-- every element a pass adds puts one more pair of `P` with both ends inside -/
+theorem bothIn_grows (P : List (Nat × Nat)) : ∀ (Q : List (Nat × Nat)), (∀ q ∈ Q, q ∈ P) → ∀ (s : List Nat),
+    bothIn P s + ((Q.foldl cstep1 s).length - s.length) ≤ bothIn P (Q.foldl cstep1 s) := by
+  intro Q
+  induction Q with
+  | nil => intro _ s; simp
+  | cons p rest ih =>
+    intro hQ s
+    simp only [List.foldl_cons]
+    have hp : p ∈ P := hQ p (by simp)
+    have hrest := ih (fun q hq => hQ q (List.mem_cons_of_mem _ hq)) (cstep1 s p)
+    rcases cstep1_cases s p with ⟨e, _⟩ | ⟨x, e, hx, h1, h2, hnot⟩
+    · rw [e] at hrest ⊢; exact hrest
+    · have hstrict : bothIn P s + 1 ≤ bothIn P (cstep1 s p) := by
+        unfold bothIn
+        apply filter_length_strict _ _ _ p P hp
+        · simpa using hnot
+        · simpa using ⟨h1, h2⟩
+        · intro q hq
+          simp only [decide_eq_true_eq] at hq ⊢
+          exact ⟨cstep1_mono s p _ hq.1, cstep1_mono s p _ hq.2⟩
+      have hl : (cstep1 s p).length = s.length + 1 := by rw [e]; simp
+      have hge : (cstep1 s p).length ≤ (rest.foldl cstep1 (cstep1 s p)).length := by
+        rcases cround_cases rest (cstep1 s p) with ⟨e2, _⟩ | h
+        · rw [e2]; exact Nat.le_refl _
+        · exact Nat.le_of_lt h
+      omega
+
+theorem citer_fix (P : List (Nat × Nat)) (s : List Nat) (h : cround P s = s) : ∀ n, citer P n s = s := by
+  intro n
+  induction n with
+  | zero => rfl
+  | succ k ih => simp only [citer, h]; exact ih
+
+theorem citer_mono (P : List (Nat × Nat)) : ∀ (n : Nat) (s : List Nat) (x : Nat), x ∈ s → x ∈ citer P n s := by
+  intro n
+  induction n with
+  | zero => intro s x h; exact h
+  | succ k ih => intro s x h; exact ih _ x (cround_mono P s x h)
+
+/-- with more rounds than pairs left to saturate, the search ends in a list in which every pair is saturated -/
+theorem citer_sat (P : List (Nat × Nat)) : ∀ (n : Nat) (s : List Nat), P.length < bothIn P s + n →
+    ∀ p ∈ P, Sat (citer P n s) p := by
+  intro n
+  induction n with
+  | zero => intro s h; have := bothIn_le P s; omega
+  | succ k ih =>
+    intro s h
+    simp only [citer]
+    rcases cround_cases P s with ⟨e, hs⟩ | hlt
+    · have e' : cround P s = s := e
+      rw [e', citer_fix P s e' k]; exact hs
+    · have := bothIn_grows P P (fun _ h => h) s
+      apply ih
+      unfold cround
+      omega
+
+/-- **the component search of the C01 monitor is complete**: whatever is connected to `v` through recorded pairs
+    (inside any set `S`) is in `component P v` -/
+theorem component_complete (P : List (Nat × Nat)) (S : Nat → Prop) (v w : Nat) (h : Conn P S v w) : w ∈ component P v := by
+  rw [component_eq]
+  have hsat := citer_sat P (P.length + 1) [v] (by omega)
+  have hv : v ∈ citer P (P.length + 1) [v] := citer_mono P _ _ v (by simp)
+  have key : ∀ a b, Conn P S a b → (a ∈ citer P (P.length + 1) [v] ↔ b ∈ citer P (P.length + 1) [v]) := by
+    intro a b hc
+    induction hc with
+    | refl a _ => exact Iff.rfl
+    | base a b hp _ _ =>
+      rcases hp with hp | hp
+      · exact hsat (a, b) hp
+      · exact (hsat (b, a) hp).symm
+    | trans a b c _ _ ih1 ih2 => exact ih1.trans ih2
+  exact (key v w h).1 hv
+
+
+/-- the bind pairs the C01 monitor keeps are the ghost pairs of the reachability invariant, and every endpoint of a
+    kept pair is recorded as bound -/
+structure PairsRel (hs : Hist) (P : List (Nat × Nat)) : Prop where
+  pairs : hs.pairs = P
+  bound : ∀ p ∈ hs.pairs, p.1 ∈ hs.bound ∧ p.2 ∈ hs.bound
+
+theorem pairsRel_empty : PairsRel {} [] := ⟨rfl, by simp⟩
+
+theorem pairsRel_step (n c : Nat) (hs : Hist) (r : R) (P : List (Nat × Nat)) (h : PairsRel hs P) (op : Op)
+    (ok : OkStep n c r op) (keys' : List Nat) (out : String) :
+    PairsRel (hs.update op (R.keys r c) keys' out) (pairsStep r P op) := by
+  cases op with
+  | add v =>
+    have hv : v < c := ok
+    simp only [Hist.update, pairsStep]
+    by_cases hp : v ∈ r.ids
+    · rw [if_pos ((mem_keys r c v hv).2 hp), if_pos hp]; exact h
+    · rw [if_neg (fun hk => hp ((mem_keys r c v hv).1 hk)), if_neg hp]
+      refine ⟨by simp only; rw [h.pairs], ?_⟩
+      intro p hp'
+      simp only [List.mem_filter, decide_eq_true_eq] at hp' ⊢
+      obtain ⟨b1, b2⟩ := h.bound p hp'.1
+      simp only [ne_eq]
+      exact ⟨⟨b1, hp'.2.1⟩, ⟨b2, hp'.2.2⟩⟩
+  | bind v1 v2 a =>
+    simp only [Hist.update, pairsStep]
+    refine ⟨by rw [h.pairs], ?_⟩
+    intro p hp'
+    simp only [List.mem_cons] at hp' ⊢
+    rcases hp' with rfl | hp'
+    · exact ⟨Or.inl rfl, Or.inr (Or.inl rfl)⟩
+    · obtain ⟨b1, b2⟩ := h.bound p hp'
+      exact ⟨Or.inr (Or.inr b1), Or.inr (Or.inr b2)⟩
+  | put v d => exact ⟨h.pairs, h.bound⟩
+  | data v => exact ⟨h.pairs, h.bound⟩
+  | kid v a => exact h
+  | kids v => exact h
+  | keys => exact h
+  | nextId =>
+    simp only [Hist.update, pairsStep]
+    split
+    · exact ⟨h.pairs, h.bound⟩
+    · exact h
+
+/-- **the direct C01 monitor accepts every reachable step**: if a vertex is gone after a call within the limits, then
+    the call is a read of a vertex the monitor lists as unread, the lost vertex is in the component the monitor
+    computes from its bind pairs, it is not listed as unread (unless it is the vertex read) and it is listed as bound
+    — none of the monitor's three rejections can fire -/
+theorem direct_C01_accepts {n c : Nat} {g : G Label Hex} {r : R} {P : List (Nat × Nat)} (hreach : Reach n c g r P)
+    (hs : Hist) (h : HistRel hs r) (hp : PairsRel hs P) (op : Op) (ok : OkStep n c r op)
+    (w : Nat) (hw : w ∈ R.keys r c) (hgone : w ∉ R.keys (R.step c r op).1 c) :
+    ∃ v, op = .data v ∧ v ∈ hs.unread ∧ w ∈ component hs.pairs v ∧ (w ≠ v → w ∉ hs.unread) ∧ w ∈ hs.bound := by
+  obtain ⟨g', hstep, hreach'⟩ := hreach.next op ok
+  have hk := hreach.keys
+  have hk' := hreach'.keys
+  have hw0 : w ∈ keys g := by rw [hk.1]; exact hw
+  have hg0 : w ∉ keys g' := by rw [hk'.1]; exact hgone
+  obtain ⟨v, e, hu, hconn, hunr, q, hq, hqw⟩ := Props.C01.safety hreach op ok g' _ hstep w hw0 hg0
+  subst e
+  have hv : v ∈ r.ids := ok
+  have hwid : w ∈ r.ids := (hk.2 w).1 hw0
+  refine ⟨v, rfl, (h.unread v hv).2 hu, ?_, ?_, ?_⟩
+  · rw [hp.pairs]; exact component_complete P _ v w hconn
+  · intro hne hm
+    have := (h.unread w hwid).1 hm
+    rw [hunr hne] at this; cases this
+  · rw [← hp.pairs] at hq
+    obtain ⟨b1, b2⟩ := hp.bound q hq
+    rcases hqw with rfl | rfl
+    · exact b1
+    · exact b2
 
 
 end Props.Driver
